@@ -18,7 +18,9 @@ RULE = ('cases = (table, operation, arguments), each executed on the three back-
         'width/len, the nine __getitem__ forms (index, slice, list and their pairs), all/any/sum with axis '
         'None/0/1 and optional row/column selections, all_i/any_i, T, & | ~, ==, to_list/to_tuple, '
         'init_bintable conversion, and the FormalContext wrappers; non-trivial = table not constant and at '
-        'least one selection is a proper non-empty list that is not a prefix 0..k-1')
+        'least one selection is a proper non-empty list that is not a prefix 0..k-1; a history stream builds '
+        'the table / context in an earlier state, queries it, changes it through the public setters (data, '
+        'object_names, attribute_names) and judges the next answer against the stateless model of the new state')
 EXHAUSTIVE = {'thorough': 'every table of shape <= 2x2, 2x3, 3x2 with every operation and every duplicate-free '
                           'row/column selection (None, [], all ordered subsets, all slices with start/stop in '
                           'range and step in {1,2,-1,-2}); every 3x3 table with every operation (except all_i/any_i and FormalContext.__getitem__) and the '
@@ -160,15 +162,68 @@ def _sel(v):
     return None if v is None else list(v)
 
 
+def raw_data(kind, t):
+    """Python data of the representation owned by class `kind`."""
+    import numpy as np
+    from bitarray import frozenbitarray as fbarray
+    if kind == 'BinTableNumpy':
+        return np.array([list(r) for r in t])
+    if kind == 'BinTableBitarray':
+        return [fbarray(list(r)) for r in t]
+    return [list(r) for r in t]
+
+
+def _warm(cls, obj, ops):
+    """Run operations whose results are discarded (they may fill memoised attributes)."""
+    for w in ops:
+        try:
+            if w['op'] == 'hash':
+                hash(obj)
+            else:
+                apply_op(cls, obj, w)
+        except Exception:
+            pass
+
+
 def run_one(cls, case):
-    from fcapy.context.bintable import AbstractBinTable, init_bintable
+    """Build the object (optionally through a history: an earlier state, discarded queries, then a
+    public-setter mutation into the case's state) and run the case's operation."""
     from fcapy.context import FormalContext
     op = case['op']
     t = case['table']
+    hist = case.get('history')
     if op.startswith('ctx_'):
         on = ['g%d' % k for k in case['onames']]
         an = ['m%d' % k for k in case['anames']]
-        K = FormalContext(data=[list(r) for r in t], object_names=on, attribute_names=an, backend=cls)
+        if hist:
+            d1 = hist.get('data1') or t
+            K = FormalContext(data=[list(r) for r in d1], object_names=['g%d' % k for k in hist['onames1']],
+                              attribute_names=['m%d' % k for k in hist['anames1']], backend=cls)
+            _warm(cls, K, hist['warm'])
+            if hist.get('data1') is not None:
+                K.data.data = raw_data(hist['assign'], t)     # same shape, through the table's setter
+            K.object_names = on
+            K.attribute_names = an
+        else:
+            K = FormalContext(data=[list(r) for r in t], object_names=on, attribute_names=an, backend=cls)
+        return apply_op(cls, K, case)
+    if hist:
+        bt = make_table(cls, hist['data1'])
+        _warm(cls, bt, hist['warm'])
+        bt.data = raw_data(hist['assign'], t)
+    else:
+        bt = make_table(cls, t)
+    return apply_op(cls, bt, case)
+
+
+def apply_op(cls, obj, case):
+    from fcapy.context.bintable import AbstractBinTable, init_bintable
+    from fcapy.context import FormalContext
+    op = case['op']
+    if op.startswith('ctx_'):
+        K = obj
+        on = ['g%d' % k for k in case['onames']]
+        an = ['m%d' % k for k in case['anames']]
         if op == 'ctx_getitem':
             r = K[py_item(case['item'])]
             if isinstance(r, FormalContext):
@@ -194,7 +249,7 @@ def run_one(cls, case):
                 raise Bad('== is not a bool: %r' % (r,))
             return ['bool', bool(r)]
         raise ValueError(op)
-    bt = make_table(cls, t)
+    bt = obj
     if op == 'shape':
         s = bt.shape
         if not (isinstance(s, tuple) and len(s) == 2 and all(_is_int(v) for v in s)):
@@ -400,6 +455,15 @@ def stats(case):
         d['item'] = it[0] if it[0] != 'pair' else '%s,%s' % (it[1][0], it[2][0])
     if case['op'] == 'conv':
         d['conv'] = '%d->%s' % (case['via'], case['target'])
+    hist = case.get('history')
+    if hist:
+        d['history'] = ('rename' + ('+data' if hist.get('data1') else '')) if 'onames1' in hist else (
+            'data:same-shape' if (len(hist['data1']), len(hist['data1'][0])) == (len(t), len(t[0]))
+            else 'data:other-shape')
+        d['history_assign'] = str(hist.get('assign'))
+        d['history_warm'] = len(hist['warm'])
+    else:
+        d['history'] = 'none'
     return d
 
 
@@ -568,51 +632,141 @@ def random_item(rng, h, w):
     return ['pair', random_index(rng, h), random_index(rng, w)]
 
 
-def random_case(rng, max_dim):
-    t, kind = gen.random_table(rng, max_dim, max_dim)
+FAMILIES = [('noarg', 0.08), ('bin', 0.12), ('red', 0.35), ('get', 0.27), ('conv', 0.06), ('ctxget', 0.08),
+            ('ctxmisc', 0.04)]
+
+
+def _pick_family(rng, allowed=None):
+    fams = [(f, p) for f, p in FAMILIES if allowed is None or f in allowed]
+    r = rng.random() * sum(p for _, p in fams)
+    for f, p in fams:
+        r -= p
+        if r < 0:
+            return f
+    return fams[-1][0]
+
+
+def _second_operand(rng, t, same_shape_only):
     h, w = len(t), len(t[0])
-    r = rng.random()
-    if r < 0.08:
-        return _case(t, rng.choice(NOARG_OPS), kind)
-    if r < 0.20:
-        op = rng.choice(BIN_OPS + ['ctx_eq'])
-        m = rng.random()
-        if m < 0.3:
-            u = [list(x) for x in t]
-        elif m < 0.6:
-            u = [list(x) for x in t]
-            for _ in range(rng.randint(1, 2)):
-                i, j = rng.randrange(h), rng.randrange(w)
-                u[i][j] = not u[i][j]
-        elif m < 0.85 or op == 'ctx_eq':
-            p = rng.choice([0.2, 0.5, 0.8])
-            u = [[rng.random() < p for _ in range(w)] for _ in range(h)]
-        else:   # a different shape: & | are rejected, == is False
-            h2, w2 = rng.choice([(h + 1, w), (h, w + 1), (max(1, h - 1), w), (w, h), (h, max(1, w - 1))])
-            u = [[rng.random() < 0.5 for _ in range(w2)] for _ in range(h2)]
-        return _case(t, op, kind, table2=u)
-    if r < 0.55:
-        op = rng.choice(RED_OPS + RED_OPS + IDX_OPS)
+    m = rng.random()
+    if m < 0.3:
+        return [list(x) for x in t]
+    if m < 0.6:
+        u = [list(x) for x in t]
+        for _ in range(rng.randint(1, 2)):
+            i, j = rng.randrange(h), rng.randrange(w)
+            u[i][j] = not u[i][j]
+        return u
+    if m < 0.85 or same_shape_only:
+        p = rng.choice([0.2, 0.5, 0.8])
+        return [[rng.random() < p for _ in range(w)] for _ in range(h)]
+    # a different shape: & | are rejected, == is False
+    h2, w2 = rng.choice([(h + 1, w), (h, w + 1), (max(1, h - 1), w), (w, h), (h, max(1, w - 1))])
+    return [[rng.random() < 0.5 for _ in range(w2)] for _ in range(h2)]
+
+
+def random_op(rng, t, kind, family=None, names=None, op=None):
+    """One operation with random arguments on the table t."""
+    h, w = len(t), len(t[0])
+    family = family or _pick_family(rng)
+    if names is None:
+        names = {'onames': rng.sample(range(60), h), 'anames': rng.sample(range(60), w)}
+    if family == 'noarg':
+        return _case(t, op or rng.choice(NOARG_OPS), kind)
+    if family == 'bin':
+        op = op or rng.choice(BIN_OPS + ['ctx_eq'])
+        extra = dict(names) if op == 'ctx_eq' else {}
+        return _case(t, op, kind, table2=_second_operand(rng, t, op == 'ctx_eq'), **extra)
+    if family == 'red':
+        op = op or rng.choice(RED_OPS + RED_OPS + IDX_OPS)
         axis = rng.choice([0, 1] if op in IDX_OPS else [None, 0, 1])
         if rng.random() < 0.01:
             axis = 2    # rejected by every back-end
         return _case(t, op, kind, axis=axis, rows=random_sel(rng, h), cols=random_sel(rng, w))
-    if r < 0.82:
+    if family == 'get':
         return _case(t, 'getitem', kind, item=random_item(rng, h, w))
-    if r < 0.88:
+    if family == 'conv':
         return _case(t, 'conv', kind, via=rng.choice([0, 1]), target=rng.choice(BACKENDS + [None]))
-    if r < 0.96:
-        names = {'onames': rng.sample(range(60), h), 'anames': rng.sample(range(60), w)}
+    if family == 'ctxget':
         return _case(t, 'ctx_getitem', kind, item=random_item(rng, h, w), **names)
-    names = {'onames': rng.sample(range(60), h), 'anames': rng.sample(range(60), w)}
-    return _case(t, rng.choice(['ctx_T', 'ctx_invert', 'ctx_extents']), kind, **names)
+    return _case(t, op or rng.choice(['ctx_T', 'ctx_invert', 'ctx_extents']), kind, **names)
+
+
+def family_of(op):
+    if op in NOARG_OPS:
+        return 'noarg'
+    if op in BIN_OPS or op == 'ctx_eq':
+        return 'bin'
+    if op in RED_OPS + IDX_OPS:
+        return 'red'
+    return {'getitem': 'get', 'conv': 'conv', 'ctx_getitem': 'ctxget'}.get(op, 'ctxmisc')
+
+
+def random_case(rng, max_dim):
+    t, kind = gen.random_table(rng, max_dim, max_dim)
+    return random_op(rng, t, kind)
+
+
+def history_case(rng, max_dim):
+    """Mutate-then-requery: the object is built in an earlier state (data D1 / old names), queried
+    (results discarded), changed through a public setter into the case's state (table / names), and
+    only then asked the case's operation.  The model is stateless: the answer must be that of the
+    final state."""
+    t, kind = gen.random_table(rng, max_dim, max_dim)
+    h, w = len(t), len(t[0])
+    on_ctx = rng.random() < 0.35
+    if on_ctx:
+        fam = rng.choice(['ctxget', 'ctxmisc', 'ctxmisc', 'bin'])
+        case = random_op(rng, t, kind, family=fam, op='ctx_eq' if fam == 'bin' else None)
+        names1 = {'onames': rng.sample(range(60, 120), h), 'anames': rng.sample(range(60, 120), w)}
+        hist = {'onames1': names1['onames'], 'anames1': names1['anames'], 'data1': None, 'assign': None}
+        d1 = t
+        if rng.random() < 0.5:      # the table behind the context is replaced as well (same shape)
+            p = rng.choice([0.2, 0.5, 0.8])
+            d1 = [[rng.random() < p for _ in range(w)] for _ in range(h)]
+            hist['data1'] = d1
+            hist['assign'] = rng.choice(BACKENDS)
+        warm = [random_op(rng, d1, 'warm', family=family_of(case['op']), names=names1,
+                          op=case['op'] if case['op'] != 'ctx_getitem' else None)]
+        for _ in range(rng.randint(0, 2)):
+            fam2 = rng.choice(['ctxget', 'ctxmisc', 'bin'])
+            warm.append(random_op(rng, d1, 'warm', family=fam2, names=names1, op='ctx_eq' if fam2 == 'bin' else None))
+    else:
+        fam = _pick_family(rng, ('noarg', 'noarg', 'bin', 'red', 'get', 'conv'))
+        if rng.random() < 0.25:
+            fam = 'noarg'
+        case = random_op(rng, t, kind, family=fam, op=rng.choice(BIN_OPS) if fam == 'bin' else
+                         (rng.choice(['T', 'T', 'to_list', 'shape', 'invert', 'to_tuple', 'len', 'width'])
+                          if fam == 'noarg' else None))
+        m = rng.random()
+        if m < 0.4:
+            h1, w1 = h, w
+        elif m < 0.6:
+            h1, w1 = w, h
+        else:
+            h1, w1 = rng.randint(1, max_dim), rng.randint(1, max_dim)
+        p = rng.choice([0.2, 0.5, 0.8])
+        d1 = [[rng.random() < p for _ in range(w1)] for _ in range(h1)]
+        hist = {'data1': d1, 'assign': rng.choice(BACKENDS)}
+        # the same kind of query before the change (a memoised answer would survive it), then others
+        warm = [random_op(rng, d1, 'warm', family=fam, op=case['op'] if fam in ('noarg', 'bin', 'red') else None)]
+        for _ in range(rng.randint(0, 3)):
+            f2 = _pick_family(rng, ('noarg', 'bin', 'red', 'get'))
+            warm.append(random_op(rng, d1, 'warm', family=f2, op=rng.choice(BIN_OPS) if f2 == 'bin' else None))
+        if rng.random() < 0.3:
+            warm.append({'op': 'hash'})
+    rng.shuffle(warm)
+    hist['warm'] = [{k: v for k, v in x.items() if k not in ('table', 'kind')} for x in warm]
+    case['history'] = hist
+    case['kind'] = 'history'
+    return case
 
 
 def generate(rng, tier):
     cases = []
     if tier == 'thorough':
         cases += list(exhaustive_cases())
-        n_rand, dim = 12000, 12
+        n_rand, dim, n_hist = 12000, 12, 15000
     else:
         # a sample of the exhaustive scope: every operation on randomly drawn small tables
         k = 0
@@ -621,9 +775,11 @@ def generate(rng, tier):
                 t = [[rng.random() < 0.5 for _ in range(w)] for _ in range(h)]
                 k += 1
                 cases += list(cases_for_table(t, (h, w) != (3, 3), _others(t, k)))
-        n_rand, dim = 8000, 8
+        n_rand, dim, n_hist = 6500, 8, 2500
     for _ in range(n_rand):
         cases.append(random_case(rng, dim))
+    for _ in range(n_hist):
+        cases.append(history_case(rng, min(dim, 6)))
     return cases
 
 
@@ -677,7 +833,28 @@ def shrink(case):
                 c['onames'] = [x for k, x in enumerate(case['onames']) if k != drop_row]
             if drop_col is not None:
                 c['anames'] = [x for k, x in enumerate(case['anames']) if k != drop_col]
+            if case.get('history'):     # the earlier state of a context has the same shape: too entangled
+                return None
         return c
+    hist = case.get('history')
+    if hist:
+        c = dict(case)
+        del c['history']
+        out.append(c)
+        for k in range(len(hist['warm'])):
+            c = dict(case)
+            c['history'] = dict(hist, warm=hist['warm'][:k] + hist['warm'][k + 1:])
+            out.append(c)
+        d1 = hist.get('data1')
+        if d1 and not op.startswith('ctx_'):
+            if len(d1) > 1:
+                c = dict(case)
+                c['history'] = dict(hist, data1=d1[:-1], warm=[])
+                out.append(c)
+            if len(d1[0]) > 1:
+                c = dict(case)
+                c['history'] = dict(hist, data1=[r[:-1] for r in d1], warm=[])
+                out.append(c)
     if h > 1:
         for i in range(h):
             c = with_table([r for k, r in enumerate(t) if k != i], drop_row=i)
